@@ -28,7 +28,7 @@ def run(ctx):
     wp = ctx.body(WP, r1)
     if wp:
         nt = wp.calls(NOTIFIED)
-        ld = [c for c in wp.calls(LOAD) if "paused" in fields_of(wp, c.args[0])]
+        ld = [c for c in wp.calls(LOAD) if "paused" in fields_of(wp, c.args[0])] + wp.calls("pgcat::pool::ConnectionPool::paused")
         if not nt or not ld:
             r1.missing("Notify::notified / load(paused) in wait_paused")
         else:
@@ -37,7 +37,7 @@ def run(ctx):
                      "the paused flag is read before the waiter is registered: a RESUME between the read and the registration is lost and the client waits forever", ld[0].where())
             # the awaited future is that Notified, on the paused==true edge
             sws = switches(wp)
-            T, Fa, _ = call_bool_edges(wp, LOAD, switches_cache=sws)
+            T, Fa, _ = call_bool_edges(wp, LOAD, "pgcat::pool::ConnectionPool::paused", switches_cache=sws)
             polls = [c for c in wp.calls() if wp.is_poll_of_coroutine(c)]
             okp = False
             for pc in polls:
